@@ -155,6 +155,13 @@ func ValText(s *Schema, v reflect.Value, o TextOpts) string {
 		}
 
 		return "(some " + ValText(s.Elem, v.Elem(), o) + ")"
+	case KCustom:
+		b, err := v.Interface().(interface{ Encode() ([]byte, error) }).Encode()
+		if err != nil {
+			return "(custom-error)"
+		}
+
+		return "(x " + hexs(b) + ")"
 	case KIface:
 		if v.IsNil() {
 			return "nil"
@@ -445,6 +452,18 @@ func fillVal(s *Schema, e *sexp, v reflect.Value) error {
 			return err
 		}
 		v.Set(p)
+	case KCustom:
+		if !e.tagged("x", 1) {
+			return bad()
+		}
+		b, err := unhx(e.list[1].atom)
+		if err != nil {
+			return err
+		}
+		n, err := v.Addr().Interface().(interface{ Decode([]byte) (int, error) }).Decode(b)
+		if err != nil || n != len(b) {
+			return bad()
+		}
 	case KIface:
 		if e.atom == "nil" {
 			return nil
